@@ -143,6 +143,10 @@ fn gen_base(rng: &mut Rng) -> ConnScenario {
         }
     };
     let services = Services {
+        auth: Script::always(
+            Some(if rng.chance(1, 3) { ms(rng.range(1, 20_000)) } else { 0 }),
+            if rng.chance(1, 2) { crate::services::AuthRes::Claim } else { crate::services::AuthRes::Profile { name: format!("Real{}", rng.below(100)), uuid: format!("{:032x}", gen_uuid(rng)), props: gen_props(rng) } },
+        ),
         discovery: Script::always(Some(lat(rng)), DiscRes::Targets((0..ntargets).map(|i| gen_target(rng, i)).collect())),
         filter: Script::always(Some(lat(rng)), FiltRes::Identity),
         strategy: Script::always(Some(lat(rng)), StratRes::First),
@@ -176,9 +180,19 @@ fn gen_base(rng: &mut Rng) -> ConnScenario {
             serde_json::to_vec(&json!({"id": uuid_hyph(gen_uuid(rng)), "server_address": "h".repeat(rng.range(1, 200) as usize), "server_port": 7, "trace_id": null})).unwrap(),
         );
     }
+    let secret = if rng.chance(1, 2) { Some(rng.bytes(16)) } else { None };
+    let client_addr = gen_addr(rng);
+    // a returning player: a valid authentication cookie makes a long login-phase frame and another path
+    if let (3, Some(sec)) = (intent, &secret)
+        && rng.chance(1, 3)
+    {
+        let id = Identity { name: format!("Cookie{}", rng.below(100)), uuid: gen_uuid(rng), props: gen_props(rng) };
+        let body = cookie_json(Wall::default().base_s - rng.below(3600), &client_addr, &id, Some("old-target"));
+        client.auth_cookie = Some(signed_cookie(sec, &body));
+    }
     ConnScenario {
         seed: rng.next_u64(),
-        cfg: ConnCfg { secret: if rng.chance(1, 2) { Some(rng.bytes(16)) } else { None }, expiry: None, max_frame: None, client_addr: gen_addr(rng) },
+        cfg: ConnCfg { secret, expiry: None, max_frame: None, client_addr },
         wall: Wall::default(),
         services,
         client,
@@ -218,7 +232,7 @@ fn generate(rng: &mut Rng, index: u64) -> C08Sc {
     let refo = run_conn(&sc);
     let frames = refo.view.sent.clone();
     let mut events: Vec<(String, u64)> = vec![];
-    for name in ["discovery_done", "filter_done", "strategy_done"] {
+    for name in ["auth_done", "discovery_done", "filter_done", "strategy_done"] {
         if let Some(e) = refo.log.iter().find(|e| e.actor == format!("svc:{}", name.trim_end_matches("_done")) && e.kind == "done") {
             events.push((name.to_string(), e.t_ns));
         }
